@@ -28,7 +28,7 @@ from lib.core import Stream, cZ, clist, cbool
 GRID_ID = 1
 NONEX = sys.maxsize
 KINDS = ("M", "B", "P", "E", "C")
-FORMULAS = ("grid", "consumer", "producer", "battery", "pv", "pvids", "ev", "chp")
+FORMULAS = ("grid", "consumer", "producer", "battery", "pv", "pvids", "ev", "chp", "batsub", "pvsub")
 
 
 # ----------------------------------------------------------------------------- trees
@@ -227,6 +227,15 @@ def device_ids(roots):
     return bats, pv, ev
 
 
+def sel_of(case):
+    """The inverter subsets of the two subset-pool formulas (default: every inverter)."""
+    _, pv, _ = device_ids(case["roots"])
+    binv = sorted(n["id"] for n in walk(case["roots"]) if n["k"] == "B")
+    bsel = case.get("bsel")
+    psel = case.get("psel")
+    return (binv if bsel is None else sorted(set(bsel) & set(binv))), (pv if psel is None else sorted(set(psel) & set(pv)))
+
+
 def run_generators(case):
     """All generated formulas for the tree: {name: {"terms": [...], "value": int|None} | {"error": cls}}."""
     I = _imports()
@@ -241,6 +250,7 @@ def run_generators(case):
                 rd[b] = None
     bats, pv, ev = device_ids(roots)
     fb = bool(case.get("fb", True))
+    bsel, psel = sel_of(case)
     FG = I.FG
     cfg = lambda ids=None: FG.FormulaGeneratorConfig(component_ids=ids, allow_fallback=fb)
     plan = {
@@ -252,6 +262,9 @@ def run_generators(case):
         "pvids": (FG.PVPowerFormula, cfg(set(pv))),
         "ev": (FG.EVChargerPowerFormula, cfg(set(ev))),
         "chp": (FG.CHPPowerFormula, cfg()),
+        # pools over a subset: the batteries of the inverters case["bsel"], the PV inverters case["psel"]
+        "batsub": (FG.BatteryPowerFormula, cfg({b for n in walk(roots) if n["k"] == "B" and n["id"] in bsel for b in n["bats"]})),
+        "pvsub": (FG.PVPowerFormula, cfg(set(psel))),
     }
     obs = {}
     for name, (cls, c) in plan.items():
@@ -315,13 +328,17 @@ def formula_vector(roots, f):
     return {a: b for a, b in vec.items() if b != 0}, bad
 
 
-def expected_vectors(roots):
+def expected_vectors(roots, case=None):
     dev = {k: {n["id"]: 1 for n in walk(roots) if n["k"] == k} for k in "BPEC"}
+    bsel, psel = sel_of(case or {"roots": roots})
+    # only inverters that have a battery can be requested through battery ids
+    bsub = {n["id"]: 1 for n in walk(roots) if n["k"] == "B" and n["id"] in bsel and n["bats"]}
+    psub = {i: 1 for i in psel} if psel else dev["P"]     # no ids given = all PV (DFS)
     cons = {-i: 1 for i in load_vars(roots)}
     prod = {**dev["P"], **dev["C"]}
     grid = {**cons, **prod, **dev["B"], **dev["E"]}
     return {"grid": grid, "consumer": cons, "producer": prod, "battery": dev["B"], "pv": dev["P"], "pvids": dev["P"],
-            "ev": dev["E"], "chp": dev["C"]}
+            "ev": dev["E"], "chp": dev["C"], "batsub": bsub, "pvsub": psub}
 
 
 def f9_trigger(roots) -> bool:
@@ -350,7 +367,7 @@ def judge(case, obs, only_wf=True):
     roots = case["roots"]
     if only_wf and not wf_tree(roots):
         return []
-    exp = expected_vectors(roots)
+    exp = expected_vectors(roots, case)
     out = []
     vecs = {}
     for name in FORMULAS:
@@ -408,35 +425,42 @@ def c_formula(f) -> str:
 
 HEADER = """From Verif Require Import model.Common model.Graph.
 (* the eight generated formulas, in the order of the harness: grid, consumer, producer, battery,
-   pv (DFS), pv (all inverter ids), ev, chp; None = the generator raises *)
-Definition formulas (fb : bool) (roots : list node) : list (option (list term)) :=
+   pv (DFS), pv (all inverter ids), ev, chp, battery pool over the batteries of the inverters bsel,
+   PV pool over the inverters psel; None = the generator raises *)
+Definition formulas (fb : bool) (roots : list node) (bsel psel : list Z) : list (option (list term)) :=
   [grid_terms fb roots; Some (consumer_terms fb roots); Some (producer_terms fb roots);
    Some (battery_terms fb roots); Some (pv_terms fb roots); Some (pvids_terms fb roots);
-   Some (ev_terms roots); chp_terms roots].
-Definition check1 (m : option (list term)) (e : option (list oterm * Z)) : bool :=
+   Some (ev_terms roots); chp_terms roots;
+   Some (battery_pool_terms fb roots bsel); Some (pv_pool_terms fb roots psel)].
+(* same signed terms (id, sign, nones_are_zeros, fallback ids); same number, both when summing the
+   readings of the nodes the terms name and when looking the ids up in the tree *)
+Definition check1 (roots : list node) (m : option (list term)) (e : option (list oterm * Z)) : bool :=
   match m, e with
   | None, None => true
-  | Some ts, Some (ots, v) => same_terms (map observe ts) ots && (eval ts =? v)
+  | Some ts, Some (ots, v) =>
+      same_terms (map observe ts) ots && (eval ts =? v) && (eval_by_id roots (map by_id ts) =? v)
   | _, _ => false
   end.
-Fixpoint check_all (ms : list (option (list term))) (es : list (option (list oterm * Z))) : bool :=
+Fixpoint check_all (roots : list node) (ms : list (option (list term))) (es : list (option (list oterm * Z))) : bool :=
   match ms, es with
   | [], [] => true
-  | m :: mr, e :: er => check1 m e && check_all mr er
+  | m :: mr, e :: er => check1 roots m e && check_all roots mr er
   | _, _ => false
   end.
 (* case: tree, allow_fallback, per formula (observed terms, value computed by the real steps),
    and what the harness believes about the premise and the F9 trigger *)
-Definition check (c : list node * bool * list (option (list oterm * Z)) * bool * bool) : bool :=
-  let '(roots, fb, exp, py_wf, py_trig) := c in
-  check_all (formulas fb roots) exp && Bool.eqb (wf roots) py_wf && Bool.eqb (f9_trigger roots) py_trig.
+Definition check (c : list node * bool * list Z * list Z * list (option (list oterm * Z)) * bool * bool) : bool :=
+  let '(roots, fb, bsel, psel, exp, py_wf, py_trig) := c in
+  check_all roots (formulas fb roots bsel psel) exp && Bool.eqb (wf roots) py_wf && Bool.eqb (f9_trigger roots) py_trig.
 """
 
 
 def case_term(case, obs) -> str:
     roots = case["roots"]
     exp = "[" + "; ".join(c_formula(obs[n]) for n in FORMULAS) + "]"
-    return f"({c_roots(roots)}, {cbool(case.get('fb', True))}, {exp}, {cbool(wf_tree(roots))}, {cbool(f9_trigger(roots))})"
+    bsel, psel = sel_of(case)
+    return (f"({c_roots(roots)}, {cbool(case.get('fb', True))}, {clist(bsel)}, {clist(psel)}, {exp}, "
+            f"{cbool(wf_tree(roots))}, {cbool(f9_trigger(roots))})")
 
 
 # ----------------------------------------------------------------------------- generation
@@ -471,7 +495,7 @@ def relabel(roots, rng, shuffle=True):
 
 def gen_tree(rng, max_nodes=10, max_depth=4, valid=True):
     """Random tree shape: 1-3 grid successors; dedicated, mixed and load-only meters; nesting."""
-    budget = [rng.randint(1, max_nodes)]
+    budget = [rng.choice([2, 3, 4, 5, 6, 6, 7, 7, 8, 8, 9, 9, 10, 10])]
 
     def dev(kinds="BPE"):
         k = rng.choice(kinds)
@@ -507,7 +531,7 @@ def gen_tree(rng, max_nodes=10, max_depth=4, valid=True):
     for _ in range(nroots):
         if budget[0] <= 0 and roots:
             break
-        if rng.random() < 0.7:
+        if rng.random() < (0.95 if nroots == 1 else 0.6):
             roots.append(meter(1))
         else:
             roots.append(dev("BPE" if valid else "BPEC"))
@@ -581,12 +605,29 @@ def shrink_tree(case):
             yield {**case, "roots": r}
     if not case.get("fb", True):
         yield {**case, "fb": True}
+    for key in ("bsel", "psel"):
+        if case.get(key) is not None:
+            yield {k: v for k, v in case.items() if k != key}
+            for i in range(len(case[key])):
+                if len(case[key]) > 1:
+                    yield {**case, key: case[key][:i] + case[key][i + 1:]}
+
+
+def with_subsets(case, rng):
+    """Choose the inverter subsets of the two pool formulas: usually a proper non-empty subset."""
+    binv = sorted(n["id"] for n in walk(case["roots"]) if n["k"] == "B")
+    pv = sorted(n["id"] for n in walk(case["roots"]) if n["k"] == "P")
+    for key, ids in (("bsel", binv), ("psel", pv)):
+        if ids and rng.random() < 0.8:
+            k = rng.randint(1, len(ids))
+            case[key] = sorted(rng.sample(ids, k))
+    return case
 
 
 class TreeStream(Stream):
     name = "trees"
     coq_header = HEADER
-    n_quick = 1500
+    n_quick = 2000
     n_thorough = 12000
     exhaustive_quick = 4
     exhaustive_thorough = 6
@@ -617,12 +658,12 @@ class TreeStream(Stream):
         ex = self.exhaustive_quick if tier == "quick" else self.exhaustive_thorough
         for shape in all_trees(ex):
             for fb in (True, False):
-                yield {"roots": relabel(shape, rng), "fb": fb}
+                yield with_subsets({"roots": relabel(shape, rng), "fb": fb}, rng)
         n = self.n_quick if tier == "quick" else self.n_thorough
         for _ in range(n):
             valid = rng.random() < 0.8
             shape = gen_tree(rng, valid=valid)
-            yield {"roots": relabel(shape, rng), "fb": rng.random() < 0.6}
+            yield with_subsets({"roots": relabel(shape, rng), "fb": rng.random() < 0.6}, rng)
 
     def run_impl(self, case):
         return run_generators(case)
@@ -631,7 +672,8 @@ class TreeStream(Stream):
         return case_term(case, obs)
 
     def show_term(self, case, obs):
-        return f"(formulas {cbool(case.get('fb', True))} {c_roots(case['roots'])}, wf {c_roots(case['roots'])}, f9_trigger {c_roots(case['roots'])})"
+        bsel, psel = sel_of(case)
+        return f"(formulas {cbool(case.get('fb', True))} {c_roots(case['roots'])} {clist(bsel)} {clist(psel)}, wf {c_roots(case['roots'])}, f9_trigger {c_roots(case['roots'])})"
 
     def shrink(self, case):
         return shrink_tree(case)
@@ -668,4 +710,11 @@ class TreeStream(Stream):
         for k in "BPEC":
             if any(n["k"] == k for n in nodes):
                 out.append(f"has_{k}")
+        bsel, psel = sel_of(case)
+        for nm, sel, kind in (("battery", bsel, "B"), ("pv", psel, "P")):
+            allk = [n["id"] for n in nodes if n["k"] == kind]
+            if sel and len(sel) < len(allk):
+                out.append(f"{nm}_pool_proper_subset")
+                if any(dedicated(m) == kind and 0 < sum(k["id"] in sel for k in m["kids"]) < len(m["kids"]) for m in meters):
+                    out.append(f"{nm}_pool_subset_splits_a_dedicated_meter")
         return out
